@@ -739,6 +739,10 @@ class ExcelInPython:
         if area_number > len(matrix_list):
             return '#REF!'
 
+        # номера строки и столбца - целые числа, даже если получены делением (3.0 -> 3)
+        row_number = int(row_number) if isinstance(row_number, float) else row_number
+        column_number = int(column_number) if isinstance(column_number, float) else column_number
+
         # отрицательные номера не должны отсчитываться с конца диапазона
         if (row_number is not None and row_number < 0) or (column_number is not None and column_number < 0):
             return '#VALUE!'
